@@ -109,6 +109,11 @@ func c06Dispatch(c *Ctx, e *c05Eng, name string) *c06Table {
 		return sw == nil
 	})
 	if sw == nil {
+		// the dispatcher only iterates and hands each item to a helper that switches on it (the switch body moved
+		// into a per-item method): the helper's switch over its parameter is the table
+		sw = c06DelegatedSwitch(c, e, fi, 0, map[*FuncInfo]bool{fi: true})
+	}
+	if sw == nil {
 		return t
 	}
 	for _, cl := range sw.Body.List {
@@ -139,6 +144,69 @@ func c06Dispatch(c *Ctx, e *c05Eng, name string) *c06Table {
 		}
 	}
 	return t
+}
+
+// c06DelegatedSwitch: fi has no switch of its own; the first function of the package it calls (in source order,
+// at most two levels down) whose first switch has one of that function's own parameters as its tag and constant
+// cases. The clauses are statements of the helper; the package (and its types.Info) is the dispatcher's.
+func c06DelegatedSwitch(c *Ctx, e *c05Eng, fi *FuncInfo, depth int, busy map[*FuncInfo]bool) *ast.SwitchStmt {
+	if depth >= 2 {
+		return nil
+	}
+	info := fi.Pkg.TypesInfo
+	var found *ast.SwitchStmt
+	ast.Inspect(fi.Decl.Body, func(n ast.Node) bool {
+		if found != nil {
+			return false
+		}
+		if _, isLit := n.(*ast.FuncLit); isLit {
+			return false
+		}
+		call, ok := n.(*ast.CallExpr)
+		if !ok {
+			return true
+		}
+		fn := calleeOf(info, call)
+		if fn == nil {
+			return true
+		}
+		cf := c.P.FuncOfObj(fn)
+		if cf == nil || cf.Pkg != fi.Pkg || cf.Decl.Body == nil || busy[cf] {
+			return true
+		}
+		busy[cf] = true
+		params := map[types.Object]bool{}
+		for _, f := range cf.Decl.Type.Params.List {
+			for _, nme := range f.Names {
+				if o := info.Defs[nme]; o != nil {
+					params[o] = true
+				}
+			}
+		}
+		var sw *ast.SwitchStmt
+		ast.Inspect(cf.Decl.Body, func(m ast.Node) bool {
+			if s, ok := m.(*ast.SwitchStmt); ok && sw == nil && s.Tag != nil {
+				sw = s
+				return false
+			}
+			return sw == nil
+		})
+		if sw != nil {
+			if id, ok := unparen(sw.Tag).(*ast.Ident); ok && params[info.Uses[id]] {
+				for _, cl := range sw.Body.List {
+					for _, x := range cl.(*ast.CaseClause).List {
+						if tv, ok := info.Types[x]; ok && tv.Value != nil {
+							found = sw
+						}
+					}
+				}
+			}
+			return true
+		}
+		found = c06DelegatedSwitch(c, e, cf, depth+1, busy)
+		return true
+	})
+	return found
 }
 
 func c06RuleTables(c *Ctx, e *c05Eng, tabs map[string]*c06Table) {
